@@ -1,7 +1,8 @@
 ---------------------------- MODULE Gen_SharedFd ----------------------------
 (* Program printer for the single-threaded (unsync) SharedFd protocol: the step actions of
    SharedFd run under Variant = "unsync" (a method runs to its end), the history records one
-   entry per completed METHOD (clone, drop, opstart, opfinish, poll, take2, cancel,
+   entry per completed METHOD (clone, drop, opstart, opfinish, poll - with the identity w of the
+   waker it was made with: re-polls with the same and with ANOTHER waker -, take2, cancel,
    dropunpolled) with the projected state after it. One JSON line per maximal program;
    replayed by harness bins fd_replay / fd_replay_sync (SharedFd<Instrumented>, compio_fs::File,
    compio_net::TcpStream / UnixStream). *)
@@ -11,10 +12,13 @@ CONSTANT MaxLen
 VARIABLE hist
 gvars == <<vars, hist>>
 
-Proj == [count |-> count, waits |-> waits, closed |-> closed, c |-> pcC, woken |-> woken,
+(* woken = the waker of the closer's LATEST poll has been woken; wok[i] = waker i has been woken;
+   w (in the record) = the waker the poll was made with *)
+Proj == [count |-> count, waits |-> waits, closed |-> closed, c |-> pcC, woken |-> (wk \in woken),
+         wok |-> [i \in Wakers |-> i \in woken], wk |-> wk,
          slot |-> slot, strand |-> (Stranded /\ count = 1)]
 
-Rec(a, who, src) == hist' = Append(hist, [a |-> a, h |-> who, src |-> src, x |-> Proj'])
+Rec(a, who, src) == hist' = Append(hist, [a |-> a, h |-> who, src |-> src, w |-> wk', x |-> Proj'])
 Silent == UNCHANGED hist
 
 GInit == Init /\ hist = <<>>
@@ -36,6 +40,7 @@ GNext ==
      \/ CUnwrap2 /\ Rec("poll", "C", "")
      \/ CRepoll /\ Silent
      \/ CSpurious /\ Silent
+     \/ CMigrate /\ Silent
      \/ CCancel /\ (IF pcC' = "cancelled" THEN Rec("cancel", "C", "") ELSE Silent)
      \/ CDropUnpolled /\ (IF pcC' \in {"cancelled", "forgot"} THEN Rec("dropunpolled", "C", "") ELSE Silent)
      \/ CDropCheck /\ Silent
